@@ -269,7 +269,7 @@ def rule_e5(ctx):
 
 
 def rule_e6(ctx):
-    n = check_memo_keys(ctx, "E6-memo-key", [LANG, EVAL, "src/isla/derivation_tree.py", "src/isla/isla_predicates.py", "src/isla/helpers.py", "src/isla/trie.py"])
+    n = check_memo_keys(ctx, "E6-memo-key", [LANG, EVAL, "src/isla/isla_predicates.py", "src/isla/helpers.py"])
     ctx.inventory["memo_sites"] = n
     if n < 2:
         raise Unrecognised("C03.E6", LANG, f"only {n} memo sites recognised (expected BindExpression.to_tree_prefix)")
